@@ -17,6 +17,7 @@ fn free(c: &crate::CompoundFile<PS>) {
 
 #[kani::proof]
 #[kani::stub(std::fmt::format, stub_format)]
+#[kani::stub(std::ffi::OsStr::to_str, stub_osstr_to_str)]
 #[kani::stub(std::io::copy, stub_io_copy)]
 #[kani::stub(crate::internal::path::cfb_uppercase_char, super::uptable::table_upper)]
 #[kani::unwind(140)]
@@ -61,6 +62,7 @@ fn c14_readonly_methods() {
 
 #[kani::proof]
 #[kani::stub(std::fmt::format, stub_format)]
+#[kani::stub(std::ffi::OsStr::to_str, stub_osstr_to_str)]
 #[kani::stub(std::io::copy, stub_io_copy)]
 #[kani::stub(crate::internal::path::cfb_uppercase_char, super::uptable::table_upper)]
 #[kani::unwind(140)]
